@@ -176,11 +176,13 @@ def subst_values(name, dom, tier, siblings=None):
             vals += [N(2.5), T((), lid=31), T("i", lid=32), V("x", "real"), V("w", "real"),
                      ("B", "add", ("B", "mul", N(2.0), V("w", "real")), N(1.0)),
                      ("B", ("getitem", 0), V("y", "real", (2,)), N(0, 2))]
-            # affine values mentioning a sibling real input of the term (simultaneity: the caller's sibling is meant)
+            vals.append(("U", "exp", (), V("w", "real")))  # a non-affine lazy value
+            # affine / non-affine values mentioning a sibling real input of the term (simultaneity: the caller's sibling is meant)
             for o, d in (siblings or {}).items():
                 if o != name and d == ("real", ()):
                     vals.append(("B", "add", ("B", "mul", N(2.0), V(o, "real")), N(1.0)))
                     vals.append(V(o, "real"))
+                    vals.append(("U", "exp", (), V(o, "real")))
         else:
             vals += [T((), shape, lid=33), T("j", shape, lid=34), V("v", "real", shape)]
         return vals
